@@ -24,7 +24,7 @@ type GenEnv struct {
 }
 
 var DefaultNums = []string{"0", "1", "2", "3", "10", "0.5", "1.5", "2.5", "100", ".5", "007", "3.0"}
-var DefaultStrs = []string{"", "a", "b", "abc", "1", "10", " 2 ", "x y", "é", "-", "NaN", "true"}
+var DefaultStrs = []string{"", "a", "b", "abc", "1", "10", " 2 ", "x y", "é", "-", "NaN", "true", "'sic'", "\"q\"", "'", "\"", "it's", "''a", "b\"\""}
 
 type G struct {
 	T   *rapid.T
